@@ -39,6 +39,13 @@ struct Tagged {
 void prewarm() { (void)dispenso::CpuSet::l3CacheGroups(); } // reads sysfs once; keep that out of the executions
 static mc::HookSetter hooks(prewarm, nullptr);
 
+// mc_cover compares/copies names with libc string functions, which TSan intercepts: when several threads mark
+// paths, TSan reports the engine's own table. Keep the marker calls out of race detection.
+inline void cov(const char* name) {
+  mc::TsanIgnore ig;
+  mc::cover(name);
+}
+
 template <class A>
 auto raw(const A& a) -> decltype(a.a_.load(std::memory_order_relaxed)) {
   return a.a_.load(std::memory_order_relaxed);
@@ -95,7 +102,7 @@ struct World {
       mc::fail("body of task %d was run inline after an earlier body of the same bulk call threw (set cancelled)", id);
     // the set was cancelled by another thread while this schedule call was already in progress: check-then-run
     // window of the inline path; not ordered after cancel() by anything the caller could observe
-    mc::cover("inline_overlapping_cancel");
+    cov("inline_overlapping_cancel");
     if (strict) mc::fail("strict reading: body of task %d ran inline after a cancel that overlapped the schedule call", id);
   }
 
@@ -105,13 +112,13 @@ struct World {
     cancel_oracle(id);
     if (mc_self_id() == submitter.get()) {
       if (tl_call)
-        mc::cover("ran_inline_in_schedule");
+        cov("ran_inline_in_schedule");
       else if (tl_in_wait)
-        mc::cover("ran_in_wait");
+        cov("ran_in_wait");
       else
-        mc::cover("ran_on_submitter_other");
+        cov("ran_on_submitter_other");
     } else {
-      mc::cover("ran_on_other_thread");
+      cov("ran_on_other_thread");
     }
     if (id >= kGateBase) {
       gates_started.add(1);
@@ -185,6 +192,13 @@ unsigned get_mask(const mc::Params& P, const std::vector<Step>& prog, long def) 
   return mask;
 }
 
+// number of gate tasks that puts a set of this kind over its inline threshold: outstanding > slm*n
+// (kHeavy: > max(n+1, slm*n/2))
+long gates_for_set_load(const std::string& kind, long n, long slm) {
+  if (kind == "ch") return std::max(n + 1, slm * n / 2) + 1;
+  return slm * n + 1;
+}
+
 template <class F>
 void with_set(const std::string& kind, dispenso::ThreadPool& pool, dispenso::ParentCascadeCancel casc, long slm, F&& f) {
   if (kind == "ts") {
@@ -217,28 +231,28 @@ void cover_expected_path(SetT& set, dispenso::ThreadPool& pool, const Step& st) 
   bool pool_over = (recursive && work > (long)((float)n * dispenso::kDefaultPoolRecursiveLoadFactor)) || work > plf;
   if (st.op == 's') {
     if (!is_cts(set)) {
-      mc::cover(outstanding > lf ? "ts_schedule_inline_set_load" : "ts_schedule_to_pool");
+      cov(outstanding > lf ? "ts_schedule_inline_set_load" : "ts_schedule_to_pool");
     } else {
       long thr = is_heavy(set) ? std::max(n + 1, lf / 2) : lf;
       if (outstanding > thr)
-        mc::cover("cts_schedule_inline_set_load");
+        cov("cts_schedule_inline_set_load");
       else if (pool_over)
-        mc::cover("cts_schedule_inline_pool_load");
+        cov("cts_schedule_inline_pool_load");
       else
-        mc::cover("cts_schedule_queued");
+        cov("cts_schedule_queued");
     }
   } else if (st.op == 'b') {
     size_t k = (size_t)st.k;
     if (is_heavy(set))
-      mc::cover("bulk_placed");
+      cov("bulk_placed");
     else if (k * 4 >= (size_t)n && k <= (size_t)n && raw(pool.numRings_) >= k && !recursive && outstanding <= lf)
-      mc::cover("bulk_ring_fast_path");
+      cov("bulk_ring_fast_path");
     else
-      mc::cover((lf - outstanding <= 0 || pool_over) ? "bulk_standard_inline" : "bulk_standard_enqueue");
+      cov((lf - outstanding <= 0 || pool_over) ? "bulk_standard_inline" : "bulk_standard_enqueue");
   } else if (st.op == 'B') {
-    mc::cover("bulk_force_queue");
+    cov("bulk_force_queue");
   } else if (st.op == 'q') {
-    mc::cover("schedule_force_queue");
+    cov("schedule_force_queue");
   }
 }
 
@@ -301,7 +315,7 @@ void submit_step(SetT& set, dispenso::ThreadPool& pool, World& w, const Step& st
             MC_CHECK(w.finished[cid].get() == 1, "nested TaskSet::wait() returned before its task finished");
           }
           tl_call = saved;
-          mc::cover("nested_wait");
+          cov("nested_wait");
           mc::point();
           w.finished[id].set(1);
         };
@@ -315,7 +329,7 @@ void submit_step(SetT& set, dispenso::ThreadPool& pool, World& w, const Step& st
         int id = w.fresh();
         w.barrier[id] = true;
         futs.push_back(dispenso::async(set, [&w, id] { w.body(id); }));
-        mc::cover("async_on_set");
+        cov("async_on_set");
         break;
       }
       case 't': {
@@ -329,7 +343,7 @@ void submit_step(SetT& set, dispenso::ThreadPool& pool, World& w, const Step& st
             },
             set));
         futs.push_back(std::move(f0));
-        mc::cover("then_on_set");
+        cov("then_on_set");
         break;
       }
       case 'T': {
@@ -343,7 +357,7 @@ void submit_step(SetT& set, dispenso::ThreadPool& pool, World& w, const Step& st
             },
             set));
         futs.push_back(std::move(f0));
-        mc::cover("then_on_set_pool_antecedent");
+        cov("then_on_set_pool_antecedent");
         break;
       }
       default:
@@ -353,7 +367,7 @@ void submit_step(SetT& set, dispenso::ThreadPool& pool, World& w, const Step& st
     // documented: a functor run inline by schedule() may propagate its exception to the scheduling caller
     MC_CHECK(t.tag >= first && t.tag < w.next.get(), "schedule call threw the exception of task %d which it did not submit", t.tag);
     w.caller_got[t.tag].set(1);
-    mc::cover("exception_to_schedule_caller");
+    cov("exception_to_schedule_caller");
   }
   tl_call = nullptr;
   w.progress.add(1);
@@ -397,6 +411,15 @@ MC_HARNESS(barrier) {
   std::string kind = P.s("set", "ts"), wmode = P.s("w", "w");
   std::vector<Step> prog = get_prog(P, "s");
   std::vector<Step> prog1 = parse_prog(P.s("t1", ""));
+  if (slm == 0) { // both multipliers
+    slm = mc::choose(2) ? 4 : 1;
+    mc::observe("slm", slm);
+  }
+  if (wmode == "?") { // every way of waiting
+    static const char* const kWaits[] = {"w", "0", "1", "8", "d"};
+    wmode = kWaits[mc::choose(5)];
+    mc::observe("wmode", (long)mc::hash_str(wmode.c_str()));
+  }
   World w;
   w.submitter.set(mc_self_id());
   std::vector<dispenso::Future<void>> futs;
@@ -435,9 +458,9 @@ MC_HARNESS(barrier) {
         tl_in_wait = 0;
         if (r) {
           check_barrier("tryWait()==true");
-          mc::cover("trywait_true");
+          cov("trywait_true");
         } else {
-          mc::cover("trywait_false");
+          cov("trywait_false");
         }
         mc::observe("trywait", r);
         tl_in_wait = 1;
@@ -493,7 +516,7 @@ void cancel_runner(SetT& set, dispenso::ThreadPool& pool, World& w, const Cancel
   for (int i = 0; i <= len; i++) {
     if (self_cancel && i == cfg.pos) {
       self_cancel();
-      mc::cover("cancel_by_runner");
+      cov("cancel_by_runner");
     }
     if (i < len) submit_step(set, pool, w, cfg.prog[(size_t)i], none);
   }
@@ -513,7 +536,7 @@ void cancel_runner(SetT& set, dispenso::ThreadPool& pool, World& w, const Cancel
   if (threw) {
     MC_CHECK(post, "a task exception was captured but the set is not cancelled");
     r = set.wait(); // the exception is gone; the return value is what is left to report
-    mc::cover("wait_threw");
+    cov("wait_threw");
   }
   if (pre) MC_CHECK(r, "wait() returned false although the set had been cancelled before wait() was called");
   if (!post) MC_CHECK(!r, "wait() reported cancellation of a set that is not cancelled");
@@ -527,8 +550,8 @@ void cancel_runner(SetT& set, dispenso::ThreadPool& pool, World& w, const Cancel
   }
   for (int i = kGateBase; i < kGateBase + w.ngates.get(); i++) MC_CHECK(!w.in_progress(i), "wait() returned while gate task %d was running", i);
   if (!post) MC_CHECK(skipped == 0, "%d tasks never ran although the set was not cancelled", skipped);
-  if (skipped) mc::cover("task_skipped");
-  if (pre && ran) mc::cover("task_ran_before_cancel");
+  if (skipped) cov("task_skipped");
+  if (pre && ran) cov("task_ran_before_cancel");
   mc::observe("ran", ran);
   mc::observe("skipped", skipped);
   mc::observe("r", r);
@@ -545,6 +568,12 @@ MC_HARNESS(cancel) {
   cfg.g = P("g", 0);
   cfg.pg = P("pg", 0);
   cfg.prog = get_prog(P, "s");
+  if (P.s("load", "") == "?" && cfg.n >= 1) { // no load / set over its load factor / pool over its load factor
+    int c = mc::choose(3);
+    cfg.g = c == 1 ? gates_for_set_load(cfg.kind, cfg.n, cfg.slm) : 0;
+    cfg.pg = c == 2 ? cfg.n * cfg.plm + 1 : 0;
+    mc::observe("load", c);
+  }
   int len = (int)cfg.prog.size();
   cfg.pos = P.has("pos") ? P("pos") : mc::choose(len + 1);
   mc::observe("pos", cfg.pos);
@@ -566,7 +595,7 @@ MC_HARNESS(cancel) {
           mc::spawn([&] {
             mc::block_until([&] { return w.settled.get() && w.progress.get() >= cfg.pos; });
             set.cancel();
-            mc::cover("cancel_by_second_thread");
+            cov("cancel_by_second_thread");
           });
         }
         cancel_runner(set, pool, w, cfg, self_cancel);
@@ -584,7 +613,7 @@ MC_HARNESS(cancel) {
             if (!racing) self_cancel = [&] { top.cancel(); };
             cancel_runner(set, pool, w, cfg, self_cancel);
           });
-          mc::cover(deep ? "cascade_depth2" : "cascade_depth1");
+          cov(deep ? "cascade_depth2" : "cascade_depth1");
         };
         auto mid = [&] {
           with_set(cfg.kind, pool, dispenso::ParentCascadeCancel::kOn, 4, [&](auto& midset) {
@@ -599,7 +628,7 @@ MC_HARNESS(cancel) {
         if (racing) {
           mc::block_until([&] { return w.settled.get() && w.progress.get() >= cfg.pos; });
           top.cancel();
-          mc::cover("cancel_by_t0_racing");
+          cov("cancel_by_t0_racing");
         }
         bool r = top.wait();
         MC_CHECK(r == raw(top.canceled_), "top wait() return value does not match its cancelled state");
@@ -621,6 +650,10 @@ MC_HARNESS(exc) {
   std::vector<Step> prog = get_prog(P, "q");
   World w;
   w.mask = get_mask(P, prog, 1);
+  if (g < 0) { // no load / set over its load factor
+    g = (n >= 1 && mc::choose(2)) ? gates_for_set_load(kind, n, slm) : 0;
+    mc::observe("g", g);
+  }
   w.submitter.set(mc_self_id());
   MC_CHECK(n >= 1 || g == 0, "harness: gates need a worker");
   {
@@ -661,7 +694,7 @@ MC_HARNESS(exc) {
           MC_CHECK(captured(tag), "delivered exception has tag %d, which no task of this round left with the set", tag);
           delivered++;
           complete_check(c == 'w' ? "wait() (by exception)" : "tryWait() (by exception)");
-          mc::cover(c == 'w' ? "wait_delivered" : "trywait_delivered");
+          cov(c == 'w' ? "wait_delivered" : "trywait_delivered");
         } else if (c == 'w') {
           complete_check("wait()");
           MC_CHECK(delivered == 1 || ncaptured() == 0, "wait() returned normally although %d task exception(s) were captured and none delivered", ncaptured());
@@ -682,7 +715,7 @@ MC_HARNESS(exc) {
       for (int i = 0; i < w.next.get(); i++) thrown += w.finished[i].get() == 2;
       mc::observe("thrown", thrown);
       mc::observe("captured", ncaptured());
-      if (ncaptured() > 1) mc::cover("several_throwers_captured");
+      if (ncaptured() > 1) cov("several_throwers_captured");
       // ---- round 2: the set is still usable
       bool was_canceled = raw(set.canceled_);
       round_first = w.next.get();
@@ -694,9 +727,9 @@ MC_HARNESS(exc) {
       do_wait('w');
       if (!was_canceled) {
         MC_CHECK(w.started[rid].get() == 1 && w.finished[rid].get() != 0, "resubmitted task did not run on a set that is not cancelled");
-        mc::cover("reused_uncancelled");
+        cov("reused_uncancelled");
       } else {
-        mc::cover("reused_cancelled");
+        cov("reused_cancelled");
       }
     });
   } // ~ThreadPool
